@@ -4,7 +4,7 @@ import DashLive.Driver.Util
 store and prints, for every step, `<result>|<canonical state>`, steps joined by `#`.
 
 ops (fields separated by `:`):
-  `as:dir:title`  `es:spk:dir:title:tref|-`  `ds:spk`
+  `as:dir:title`  `es:spk:dir:title:tref|-`  `ds:spk`  `sd:spk:valid(0|1)`
   `up:spk:stem:suffix:idx,ctype,track,enc,kid+kid|-,badlang`
   `ix:mfid`  `em:spk:mfid:track`  `dm:spk:mfid`
   `ak:kid:0|1`  `ek:kpk:0|1`  `dk:kpk`
@@ -48,6 +48,7 @@ def parseOp (s : String) : Option Op :=
   | ["as", d, t] => some (.addStream d t)
   | ["es", k, d, t, r] => do some (.editStream (← parseNat k) d t (if r == "-" then "" else r))
   | ["ds", k] => do some (.delStream (← parseNat k))
+  | ["sd", k, v] => do some (.setDefaults (← parseNat k) (← parseBool v))
   | ["up", k, st, su, c] => do some (.upload (← parseNat k) st su (← parseContent c))
   | ["ix", m] => do some (.index (← parseNat m))
   | ["em", k, m, t] => do some (.editMedia (← parseNat k) (← parseNat m) (← parseNat t))
